@@ -462,7 +462,7 @@ class Explorer:
         for n, v in bound.items():
             sf.vars[n] = run.coerce(v, ptypes[n]) if not isinstance(v, Conc) else v
         saved_old = run.old
-        run.old = {"heap": dict(run.heap), "globals": dict(run.globals), "vars": dict(sf.vars)}
+        run.old = {"heap": dict(run.heap), "globals": dict(run.globals), "vars": dict(sf.vars), "ghost": dict(run.ghost)}
         run.specfun_stack.append(c2.specfuns)
         try:
             for j, req in enumerate(c2.requires):
@@ -487,6 +487,15 @@ class Explorer:
                     res = Val(c2.result, c2.result.fresh(f"ret_{finfo.node.name}"))
                     run.wf(res)
                 sf.vars["result"] = res
+                from .interp import SpecCtx
+                if c2.ghost_update is not None:
+                    run.spec += 1
+                    try:
+                        c2.ghost_update(SpecCtx(run, sf))
+                    finally:
+                        run.spec -= 1
+                elif c2.ghost_havoc is not None:
+                    c2.ghost_havoc(SpecCtx(run, sf))
                 for lab, ens in c2.ensures.items():
                     run.assume(run.spec_bool(ens, sf))
                 return res
@@ -748,10 +757,10 @@ class Explorer:
         for name, ty in c.ghost.items():
             run.ghost[name] = Val(ty, ty.const(f"ghost!{name}"))
             run.wf(run.ghost[name])
-        run.old = {"heap": {}, "globals": dict(run.globals), "vars": dict(fr.vars)}
+        run.old = {"heap": {}, "globals": dict(run.globals), "vars": dict(fr.vars), "ghost": dict(run.ghost)}
         if c.entry is not None:
             c.entry(run, fr)
-        run.old = {"heap": dict(run.heap), "globals": dict(run.globals), "vars": dict(fr.vars)}
+        run.old = {"heap": dict(run.heap), "globals": dict(run.globals), "vars": dict(fr.vars), "ghost": dict(run.ghost)}
         for req in c.requires:
             run.assume(run.spec_bool(req, fr))
         return fr
@@ -792,6 +801,13 @@ class Explorer:
             result = run.coerce(result, c.result)
         pf = self.post_frame(run, fr, result)
         run.oblige("cover#normal-exit", z3.BoolVal(True), kind="cover", expect_sat=True, note="a normal exit is reachable")
+        if c.ghost_update is not None:
+            from .interp import SpecCtx
+            run.spec += 1
+            try:
+                c.ghost_update(SpecCtx(run, pf))
+            finally:
+                run.spec -= 1
         for lab, ens in c.ensures.items():
             run.oblige(f"post#{lab}", run.spec_bool(ens, pf), kind="post", note=ens if isinstance(ens, str) else lab)
         self.frame_obligations(run)
